@@ -419,8 +419,72 @@ def corner_grid(rng):
     return out
 
 
+def boundary_grid(rng):
+    """deterministic grid: receivers/operands WITH derivatives (with and without units), mostly shapeless, whose value
+    sits at a domain boundary (0, negative, > 1, overflow), through every operation that masks-and-replaces"""
+    out = []
+    unary = [('sqrt', {}), ('log', {}), ('exp', {}), ('exp', {'check': py(True)}), ('reciprocal', {}),
+             ('reciprocal', {'nozeros': py(False)}), ('arcsin', {}), ('arccos', {}), ('arctan', {}), ('sign', {}),
+             ('abs', {}), ('__abs__', {}), ('__neg__', {}), ('int', {}), ('frac', {}), ('sin', {}), ('tan', {}),
+             ('as_float', {}), ('wod', None), ('without_units', {})]
+    for shape in ([], [3]):
+        for value in (0., -1., 2., 1e300):
+            for units in (None, 'KM'):
+                for dunits in (None, 'SECONDS'):
+                    for dmask in ('F',):
+                        x = {'k': 'q', 'cls': 'Scalar', 'shape': shape, 'numer': [], 'dtype': 'float', 'mask': 'F',
+                             'seed': rng.randrange(1 << 20), 'put': value,
+                             'derivs': {'t': {'k': 'q', 'cls': 'Scalar', 'shape': shape, 'numer': [], 'dtype': 'float',
+                                              'mask': dmask, 'seed': rng.randrange(1 << 20), 'style': 'pos'}}}
+                        if units:
+                            x['units'] = units
+                        if dunits:
+                            x['derivs']['t']['units'] = dunits
+                        me = {'k': 'ref', 'i': 0}
+                        for nm, kw in unary:
+                            if kw is None:
+                                out.append(_call('Scalar', nm, [x], how='prop'))
+                            else:
+                                out.append(_call('Scalar', nm, [x], kw))
+                        for nm, arg in (('__rtruediv__', py(3.)), ('__truediv__', me), ('__truediv__', py(0.)),
+                                        ('__floordiv__', py(0)), ('__floordiv__', me), ('__rfloordiv__', py(3.)),
+                                        ('__mod__', py(0)), ('__mod__', me), ('__rmod__', py(3.)),
+                                        ('__pow__', py(-1)), ('__pow__', py(0.5)), ('__pow__', py(2)),
+                                        ('__mul__', me), ('__add__', me), ('__sub__', me), ('arctan2', me),
+                                        ('arctan2', py(0.)), ('__eq__', me), ('tvl_eq', me)):
+                            out.append(_call('Scalar', nm, [x, arg]))
+                        for remask in (True, False):
+                            for rep in (None, py(7.), me):
+                                kw = {'remask': py(remask)}
+                                if rep is not None:
+                                    kw['replace'] = rep
+                                for nm in ('mask_where_eq', 'mask_where_ne', 'mask_where_le', 'mask_where_ge',
+                                           'mask_where_lt', 'mask_where_gt'):
+                                    out.append(_call('Scalar', nm, [x, py(value)], kw))
+                                for nm in ('mask_where_between', 'mask_where_outside'):
+                                    out.append(_call('Scalar', nm, [x, py(-0.5), py(0.75)], kw))
+                                for m in (True, False):
+                                    out.append(_call('Scalar', 'mask_where', [x, py(m)], kw))
+                            out.append(_call('Scalar', 'clip', [x, py(0.25), py(0.75)], {'remask': py(remask)}))
+                            out.append(_call('Scalar', 'clip', [x, py(None), py(0.75)], {'remask': py(remask)}))
+    # the same idea for vectors: zero vectors through unit / reciprocal-like members
+    for cls in ('Vector3', 'Pair', 'Vector'):
+        for shape in ([], [2]):
+            v = q(rng, cls, shape=shape, plain=True, mask='F')
+            v['zrow'] = [0]
+            v['derivs'] = {'t': dict(v, seed=rng.randrange(1 << 20), units='KM')}
+            v['derivs']['t'].pop('zrow')
+            for nm in ('unit', 'norm', 'norm_sq', 'with_norm', '__abs__', 'element_div', 'perp', 'proj', 'sep',
+                       'ucross', 'reciprocal'):
+                if hasattr(CLASSES[cls], nm):
+                    ops = [v] if nm in ('unit', 'norm', 'norm_sq', 'with_norm', '__abs__', 'reciprocal') else \
+                        [v, {'k': 'ref', 'i': 0}]
+                    out.append(_call(cls, nm, ops))
+    return out
+
+
 def targeted(rng, n):
-    out = unit_powers(rng) + corner_grid(rng)
+    out = unit_powers(rng) + corner_grid(rng) + boundary_grid(rng)
     for _ in range(n):
         m = Mx = q(rng, 'Matrix', numer=rng.choice([[2, 2], [3, 3]]), singular=rng.random() < 0.7,
                    shape=rng.choice([[], [2], [3], [2, 2]]))
